@@ -10,6 +10,7 @@ import (
 	"math"
 	"os"
 	"reflect"
+	"runtime/debug"
 	"strconv"
 	"strings"
 	"sync"
@@ -28,15 +29,15 @@ type vfAppVal struct {
 	Ret  uint64   `json:"ret"`
 }
 type vfReplayData struct {
-	Harness string       `json:"harness"`
-	Label   string       `json:"label"`
-	Tier    int          `json:"tier"`
-	Inputs  []vfInputVal `json:"inputs"`
-	Apps    []vfAppVal   `json:"apps"`
-	Choices []int        `json:"choices"`
-	Retry   bool         `json:"retry"`
+	Harness string         `json:"harness"`
+	Label   string         `json:"label"`
+	Tier    int            `json:"tier"`
+	Inputs  []vfInputVal   `json:"inputs"`
+	Apps    []vfAppVal     `json:"apps"`
+	Choices []int          `json:"choices"`
+	Retry   bool           `json:"retry"`
 	Sched   []vfSchedEntry `json:"sched"`
-	BaseG   int          `json:"base_g"`
+	BaseG   int            `json:"base_g"`
 }
 
 type vfStop struct{ why string }
@@ -720,12 +721,12 @@ func vfGoroutineID() int {
 	}
 	return -vfGID()
 }
-func vfSetMapOrder(mode int)          {}
-func vfSetDelayBound(d int)           {}
-func vfMemPoints(on bool)             {}
-func vfNow() int64                    { return time.Now().UnixNano() }
-func vfLockHeld(lock interface{}) int { return 2 }
-func vfMonitorWrites(lock interface{}, roots ...interface{}) {}
+func vfSetMapOrder(mode int)                                    {}
+func vfSetDelayBound(d int)                                     {}
+func vfMemPoints(on bool)                                       {}
+func vfNow() int64                                              { return time.Now().UnixNano() }
+func vfLockHeld(lock interface{}) int                           { return 2 }
+func vfMonitorWrites(lock interface{}, roots ...interface{})    {}
 func vfMonitorResult() (badWrites, badReads, writes, reads int) { return 0, 0, 1, 1 }
 
 func vfRunOnce(h func()) (crash string) {
@@ -741,11 +742,12 @@ func vfRunOnce(h func()) (crash string) {
 	return ""
 }
 
-
 // vfReplayMain replays every counterexample file named in VF_REPLAY (':'-separated) against the harness functions of
 // the registry and prints one VF-RESULT line per file.
 func vfReplayMain(vfRegistry map[string]func()) {
 	// VF_REPLAY is a ':'-separated list of replay files; one VF-RESULT line is printed per file.
+	// A runaway recursion should die of "stack overflow" within the test deadline, not crawl towards the 1 GB default.
+	debug.SetMaxStack(64 << 20)
 	attempts, _ := strconv.Atoi(os.Getenv("VF_ATTEMPTS"))
 	if attempts <= 0 {
 		attempts = 1
